@@ -134,10 +134,12 @@ structure Ctx where
   atttype : List (Nat × List Kind)
   /-- names that `UBXMessage` instances/classes own (`dir(UBXMessage)`): read-only properties … -/
   readonly : List Name
-  /-- private instance attributes set by the constructor (`_payload`, `_mode`, …) -/
-  privateAttrs : List Name
+  /-- every name `UBXMessage` owns: `dir(UBXMessage)`, instance attributes, constructor parameters -/
+  ownNames : List Name
   /-- exceptions translated to UBXTypeError by `_do_attributes` -/
   catchType : List Exc
+  /-- the library's own exceptions in the catch list of `UBXReader.read` -/
+  readCatch : List Exc
   /-- second bytes `b` such that `b"$" + b` is in `pynmeagps.NMEA_HDR` -/
   nmeaHdr2 : List Byte
   /-- `getinputmode`: the class/id pairs treated as POLL when `len(data) <= pollMaxLen` -/
